@@ -8,6 +8,9 @@
 //! probability (write_all of std has to cope).  Output:
 //!   R <sink hex|-> <nflush> <sink length after each explicit flush>* <T|F hex: sink == concat of to_string()> <N|T|F: read back>
 //! or P when the writer panicked.
+//!   X <ity> <all|rand> <seed> <count> <maxchunk> <intr_permille>   (implementation-level search)
+//!       -> "X ok <values> <bytes>" | "X bad <what>": many values of one type through one writer,
+//!          compared with to_string and read back through Reader
 // make_output_macro_! calls itself by its bare name, so it has to be in scope at the call site
 use rlib_io::make_output_macro_;
 use rlib_io::reader::Reader;
@@ -442,10 +445,113 @@ fn read_back(bytes: Vec<u8>, expect: &[(&'static str, String)]) -> bool {
     .unwrap_or(false)
 }
 
+/// Implementation-level search: `count` values of one type (or all of them) through one writer,
+/// separated by '\n' / ' ', an explicit flush now and then; the sink's bytes must be the
+/// to_string renderings and Reader must return the values.
+macro_rules! xsearch {
+    ($t:ty, $all:expr, $seed:expr, $count:expr, $maxchunk:expr, $intr:expr) => {{
+        let mut rng = Sm($seed);
+        let mut vals: Vec<$t> = Vec::new();
+        if $all {
+            let mut v = <$t>::MIN;
+            loop {
+                vals.push(v);
+                if v == <$t>::MAX {
+                    break;
+                }
+                v += 1;
+            }
+        } else {
+            let bits = <$t>::BITS as u64;
+            for _ in 0..$count {
+                let raw = (rng.next() as u128) | ((rng.next() as u128) << 64);
+                let k = 1 + rng.next() % bits;
+                let m = if k >= 128 { raw } else { raw & ((1u128 << k) - 1) };
+                let mut v = m as $t;
+                if rng.next() % 2 == 0 {
+                    v = v.wrapping_neg();
+                }
+                if rng.next() % 64 == 0 {
+                    v = if rng.next() % 2 == 0 { <$t>::MIN } else { <$t>::MAX };
+                }
+                vals.push(v);
+            }
+        }
+        let data = Rc::new(RefCell::new(Vec::new()));
+        let sink = Sink { data: data.clone(), rng: Sm($seed ^ 0x5151), maxchunk: $maxchunk, intr: $intr };
+        let mut expect = String::new();
+        {
+            let mut w = ManuallyDrop::new(Writer::new(Box::new(sink)));
+            for (i, v) in vals.iter().enumerate() {
+                w.write(v);
+                let sep = if i % 5 == 4 { '\n' } else { ' ' };
+                w.write_char(sep);
+                expect.push_str(&v.to_string());
+                expect.push(sep);
+                if i % 4099 == 4098 {
+                    w.flush();
+                    if data.borrow().len() != expect.len() {
+                        return format!("X bad after-flush-at-value-{}-sink-has-{}-expected-{}", i, data.borrow().len(), expect.len());
+                    }
+                }
+            }
+            drop(ManuallyDrop::into_inner(w));
+        }
+        let got = data.borrow().clone();
+        if got != expect.as_bytes() {
+            let pos = got.iter().zip(expect.as_bytes()).position(|(a, b)| a != b).unwrap_or(got.len().min(expect.len()));
+            return format!("X bad first-difference-at-byte-{}-sink-{}-expected-{}", pos, got.len(), expect.len());
+        }
+        let n = got.len();
+        let back = vh::guarded(move || {
+            let leaked: &'static [u8] = Box::leak(got.into_boxed_slice());
+            let mut r = Reader::new(Box::new(leaked));
+            for (i, v) in vals.iter().enumerate() {
+                let x: $t = r.read();
+                if x != *v {
+                    return Err(i);
+                }
+            }
+            Ok(vals.len())
+        });
+        match back {
+            Some(Ok(k)) => format!("X ok {} {}", k, n),
+            Some(Err(i)) => format!("X bad read-back-differs-at-value-{}", i),
+            None => "X bad reader-panicked".to_string(),
+        }
+    }};
+}
+
+fn xrun(t: &[&str]) -> String {
+    let all = t[2] == "all";
+    let seed: u64 = p(t[3]);
+    let count: usize = p(t[4]);
+    let maxchunk: usize = p::<usize>(t[5]).max(1);
+    let intr: u64 = p(t[6]);
+    match t[1] {
+        "i8" => xsearch!(i8, all, seed, count, maxchunk, intr),
+        "i16" => xsearch!(i16, all, seed, count, maxchunk, intr),
+        "i32" => xsearch!(i32, all, seed, count, maxchunk, intr),
+        "i64" => xsearch!(i64, all, seed, count, maxchunk, intr),
+        "i128" => xsearch!(i128, all, seed, count, maxchunk, intr),
+        "isize" => xsearch!(isize, all, seed, count, maxchunk, intr),
+        "u8" => xsearch!(u8, all, seed, count, maxchunk, intr),
+        "u16" => xsearch!(u16, all, seed, count, maxchunk, intr),
+        "u32" => xsearch!(u32, all, seed, count, maxchunk, intr),
+        "u64" => xsearch!(u64, all, seed, count, maxchunk, intr),
+        "u128" => xsearch!(u128, all, seed, count, maxchunk, intr),
+        "usize" => xsearch!(usize, all, seed, count, maxchunk, intr),
+        k => bad(k),
+    }
+}
+
 fn main() {
     vh::serve(|t| {
         if t[0] == "Q" {
             return format!("B {}", Writer::VERIF_BUF_SIZE);
+        }
+        if t[0] == "X" {
+            return xrun(t);
         }
         let maxchunk: usize = p(t[1]);
         let intr: u64 = p(t[2]);
